@@ -809,7 +809,7 @@ Section Body.
     match n with
     | O => Err OutOfFuel
     | Datatypes.S n' =>
-        if is_finish ts then Ok (a, ts) else
+        if is_finish ts || peek_str (S ";") ts then Ok (a, ts) else
         let '(b, t1) := take_up2 (S "NOT") (S "NULL") ts in
         if b then column_attrs n' (mkca (ca_comment a) (ca_unsigned a) (ca_zerofill a) (ca_charset a) (ca_collate a) (ca_generated a) (ca_allow_null a) true (ca_auto_inc a) (ca_default a) (ca_on_update a)) t1 else
         let '(b, t1) := take_up (S "NULL") ts in
